@@ -492,7 +492,18 @@ fn exec_party_op(op: &str, p: &mut Party, m: &Kv, flags: &[&str], regs: &mut Reg
             };
             match b.generate_keypair() {
                 Ok(kp) => {
-                    let extra = format!(" priv={} pub={}", hex_or_dash(&kp.private), hex_or_dash(&kp.public));
+                    let mut extra = format!(" priv={} pub={}", hex_or_dash(&kp.private), hex_or_dash(&kp.public));
+                    if flags.contains(&"cmp") {
+                        // `Keypair: PartialEq` is a public operation too: compare with copies of other shapes
+                        let mut eqs = 0_u32;
+                        for (pl, ql) in [(kp.private.len(), kp.public.len()), (0, kp.public.len()), (1, kp.public.len()), (kp.private.len().saturating_sub(1), kp.public.len()), (kp.private.len(), 0), (kp.private.len(), kp.public.len().saturating_sub(1))] {
+                            let mut other = snow::Keypair { private: kp.private[..pl].to_vec(), public: kp.public[..ql].to_vec() };
+                            eqs += u32::from(kp == other) + u32::from(other == kp);
+                            other.private.extend_from_slice(&[7, 7, 7]);
+                            eqs += u32::from(kp == other) + u32::from(other == kp);
+                        }
+                        extra.push_str(&format!(" eqs={eqs}"));
+                    }
                     if flags.contains(&"store") {
                         p.s = Some(kp.private.clone());
                     }
